@@ -1,1 +1,1 @@
-
+import BufrSpec.Expand
